@@ -43,6 +43,8 @@ CHECKS = {
             "exotic numerals accepted by int() are reported, not judged; undocumented mixed designations may fail"),
     "C19": ("differential monitor: baseline read vs re-read after replacing/adding definitions outside the R-resolve closure; outcome signature and @print log compared; audit hook records opened files",
             "file names stay valid"),
+    "C05": ("R-rules oracle: valid-by-construction skeleton + rule mutators with known legal/illegal side at random admissible positions; accept/reject compared at the API boundary; M-conserve and M-const on",
+            "rule list as restated in the property; pydsdl-specific extras avoided by the skeleton"),
 }
 
 NOT_YET = {
